@@ -97,6 +97,11 @@ def run(ctx):
         _encoder(ctx, P.bodies[enc[0]])
     _r4_decoder(ctx)
     _r8_tristate(ctx)
+    if enc:
+        _r10_variable_option_fits_its_length_octet(ctx, P.bodies[enc[0]])
+    # "never silently wrapped" starts where the numbers are read: the loader's narrowing casts (C19's rule V6, evaluated here too)
+    from . import c19
+    c19.narrowing_casts(ctx, callgraph(P))
 
 
 def _tristate_ok(P, v, depth=0):
@@ -756,3 +761,76 @@ def _option_arms(P, b, T, cfg, loops):
         lp = max(encl, key=len)
         heads = {h for (u, h) in cfg.back_edges() if h in lp and u in lp and cfg.natural_loop((u, h)) == lp}
     return _arm_blocks(cfg, targets, stop=heads)
+
+
+def _r10_variable_option_fits_its_length_octet(ctx, b):
+    """the length octet of an option counts units of 8 octets: `1 + (buf.len() / 8) as u8` is what was written only while
+    buf.len() <= 254 * 8.  Every append of a name to the scratch buffer of such an option stands on the not-too-long edge of a
+    test of the buffer's length plus what is about to be appended (padding zero octets one at a time to a multiple of 8 keeps the bound)"""
+    P = ctx.P
+    T = terms(P, b)
+    cfg = cfg_of(b)
+    LIMIT = 254 * 8
+    n = 0
+    # scratch buffers whose length, divided by 8, is narrowed to the length octet: `len` calls on (L.v) feeding a Div by 8
+    # feeding a cast to u8
+    len_calls = {}
+    for cbb, tm in b.calls():
+        if (callee_name(tm) or "").endswith("::len") and tm["args"] and len(tm["dest"]) == 1:
+            bp = borrowed_place(T, tm["args"][0], cbb, len(b.blocks[cbb]["stmts"]))
+            if bp is not None and len(bp) == 2 and bp[1] == ".v" and "Serialise" in b.local_ty(bp[0]) and bp[0] > b.arg_count:
+                len_calls[tm["dest"][0]] = bp[0]
+    for bb, idx, st in b.stmts():
+        rv = st.get("rv")
+        if not (rv and rv["k"] == "bin" and rv["op"] == "Div" and op_place(rv["a"]) and const_int(rv["b"].get("k")) == 8):
+            continue
+        src = op_place(rv["a"])[0]
+        if src not in len_calls or len(st["p"]) != 1:
+            continue
+        narrowed = any(s2.get("rv") and s2["rv"]["k"] == "cast" and op_place(s2["rv"]["op"]) == (st["p"][0],) and b.local_ty(s2["p"][0]) == "u8"
+                       for _, _, s2 in b.stmts())
+        if not narrowed:
+            continue
+        bufs = [len_calls[src]]
+
+        def measures(term, L):
+            return any(y[0] == "call" and str(y[1]).endswith("::len") and y[2] and _root_is(T, y[2][0], L) for y in subterms(norm(term)))
+        for L in bufs:
+            appends = []
+            for cbb, tm in b.calls():
+                if not tm["args"]:
+                    continue
+                bp = borrowed_place(T, tm["args"][0], cbb, len(b.blocks[cbb]["stmts"]))
+                if bp is None or bp[0] != L or len(tm["args"]) < 2:
+                    continue
+                a1 = norm(T.call_args(cbb)[1])
+                if is_const(a1, 0):
+                    continue          # one padding octet
+                appends.append((cbb, tm))
+            guards = []
+            for sbb, d, te, fe in bool_switches(P, b, lambda d, L=L: d[0] == "bin" and d[1] in ("Gt", "Ge") and measures(d[2], L) and
+                                                const_value(d[3]) is not None and const_value(d[3]) <= LIMIT + (1 if d[1] == "Ge" else 0)):
+                guards.extend(fe)
+            for cbb, tm in appends:
+                n += 1
+                ctx.check(edge_dominated(cfg, guards, cbb), "R10", "variable-option-append-within-what-the-length-octet-can-say", ctx.where(b, tm["sp"]),
+                          "an append to the option's scratch buffer must stand on the edge where buffer + addition <= 254 * 8 octets "
+                          "(%d such guard edge(s) found); beyond that `1 + (len / 8) as u8` wraps and the option's length is a lie" % len(guards))
+    ctx.floor("R10", "guarded appends to length-counted option buffers", n, 1)
+
+
+def _root_is(T, t, L):
+    """the term denotes (a part of) what local L was initialised with"""
+    body = T.body
+    t = norm(t)
+    while t[0] in ("ref", "deref", "field", "index"):
+        t = norm(t[1])
+    for bb, idx, st in body.stmts():
+        if st["p"] == (L,) and "rv" in st:
+            if norm(T.rvalue(st["rv"], bb, idx)) == t:
+                return True
+    for bb, tm in body.calls():
+        if tuple(tm["dest"]) == (L,):
+            if t[0] == "call" and len(t) > 3 and t[3] == bb:
+                return True
+    return False
